@@ -243,6 +243,7 @@ Lemma create_branch_spec : forall o br s e h s1, create_branch o br s = (e, (h, 
   (e <> None -> s1 = s) /\
   (e = None -> co_create o = true ->
      lookup br (refs s) = None /\ refs s1 = insert br h (refs s) /\
+     (exists t, tree_of s h = Some t) /\
      (co_hash o = (-1)%Z -> head_commit s = Some h) /\ (co_hash o <> (-1)%Z -> h = co_hash o)).
 Proof.
   intros o br s e h s1. unfold create_branch.
@@ -250,13 +251,17 @@ Proof.
   - destruct (lookup br (refs s)) eqn:El.
     + intro H; inversion H; subst. repeat split; auto; try discriminate.
     + destruct (co_hash o =? -1)%Z eqn:Ez.
-      * destruct (head_commit s) eqn:Eh; intro H; inversion H; subst; cbn.
-        -- repeat split; auto; try discriminate; try congruence.
+      * destruct (head_commit s) as [hc|] eqn:Eh.
+        -- destruct (tree_of s hc) eqn:Et; intro H; inversion H; subst; cbn;
+             repeat split; auto; try discriminate; try congruence.
            ++ intros n Hn. now apply lookup_insert_neq.
+           ++ eauto.
            ++ intro X. apply Z.eqb_eq in Ez. congruence.
-        -- repeat split; auto; try discriminate; congruence.
-      * intro H; inversion H; subst; cbn. repeat split; auto; try discriminate; try congruence.
+        -- intro H; inversion H; subst. repeat split; auto; try discriminate; congruence.
+      * destruct (tree_of s (co_hash o)) eqn:Et; intro H; inversion H; subst; cbn;
+          repeat split; auto; try discriminate; try congruence.
         -- intros n Hn. now apply lookup_insert_neq.
+        -- eauto.
         -- intro X. apply Z.eqb_neq in Ez. congruence.
   - intro H; inversion H; subst. repeat split; auto; try discriminate; congruence.
 Qed.
@@ -271,121 +276,49 @@ Proof.
   - destruct (lookup br (refs s)); intro H; inversion H; subst; cbn; repeat split; auto; congruence.
 Qed.
 
-Lemma checkout_pre_frame : forall o s e x s1, checkout_pre o s = (e, (x, s1)) ->
-  commits s1 = commits s /\ idx s1 = idx s /\ wt s1 = wt s /\
-  (forall n, n <> co_branch_name o -> lookup n (refs s1) = lookup n (refs s)).
+(* everything checkout_pre can be, in one inversion lemma *)
+Lemma checkout_pre_inv : forall o s e x s2, checkout_pre o s = (e, (x, s2)) ->
+  (e <> None /\ s2 = s) \/
+  (exists h sa c e3,
+     co_validate o = None /\
+     (co_mode o = Merge -> unstaged s = false) /\
+     (co_mode o = Hard -> head_tree s <> HTErr) /\
+     create_branch o (co_branch_name o) s = (None, (h, sa)) /\
+     (if (h =? -1)%Z then lookup (co_branch_name o) (refs sa) else Some h) = Some c /\
+     (exists t, tree_of sa c = Some t) /\
+     move_head o (co_branch_name o) h c sa = (e3, s2) /\ e = e3 /\
+     (e3 = None ->
+        x = (c, co_mode o, match (match co_mode o with Hard => head_tree s | _ => HTNone end) with HTTree f => Some f | _ => None end))).
 Proof.
-  intros o s e x s1 H. unfold checkout_pre in H.
-  destruct (co_validate o); [inversion H; subst; repeat split; auto|].
-  destruct (create_branch o (co_branch_name o) s) as [e1 [h sa]] eqn:Ec.
-  destruct (create_branch_spec _ _ _ _ _ _ Ec) as (A1 & A2 & A3 & A4 & A5 & _).
-  destruct e1; [inversion H; subst; repeat split; auto|].
-  destruct (resolve_commit (co_branch_name o) h sa) as [[e2|] c]; [inversion H; subst; repeat split; auto|].
-  destruct (match co_mode o with Hard => head_tree sa | _ => HTNone end);
-    try (inversion H; subst; repeat split; now auto);
-    (destruct (move_head o (co_branch_name o) h c sa) as [e3 sb] eqn:Em;
-     destruct (move_head_spec _ _ _ _ _ _ _ Em) as (B1 & B2 & B3 & B4 & _);
-     destruct e3; inversion H; subst; repeat split; try congruence;
-     intros n Hn; rewrite B2; now apply A5).
-Qed.
-
-(* an error before Reset, without Create, leaves the state untouched *)
-Lemma checkout_pre_err_nocreate : forall o s e x s1,
-  checkout_pre o s = (Some e, (x, s1)) -> co_create o = false -> s1 = s.
-Proof.
-  intros o s e x s1 H Hc. unfold checkout_pre in H.
-  destruct (co_validate o); [now inversion H|].
-  destruct (create_branch o (co_branch_name o) s) as [e1 [h sa]] eqn:Ec.
-  destruct (create_branch_spec _ _ _ _ _ _ Ec) as (_ & _ & _ & _ & _ & A6 & _).
-  destruct (A6 Hc) as (-> & -> & ->).
-  destruct (resolve_commit (co_branch_name o) (co_hash o) s) as [[e2|] c]; [now inversion H|].
-  destruct (match co_mode o with Hard => head_tree s | _ => HTNone end);
-    try (now inversion H);
-    (destruct (move_head o (co_branch_name o) (co_hash o) c s) as [e3 sb] eqn:Em;
-     destruct (move_head_spec _ _ _ _ _ _ _ Em) as (_ & _ & _ & _ & B5);
-     destruct e3; inversion H; subst; apply B5; discriminate).
-Qed.
-
-(* the three validation errors are raised before anything is written *)
-Definition early_err (e : err) : bool :=
-  match e with EBranchHashExclusive | ECreateRequiresBranch | EBranchExists => true | _ => false end.
-
-Lemma checkout_pre_early : forall o s e x s1,
-  checkout_pre o s = (Some e, (x, s1)) -> early_err e = true -> s1 = s.
-Proof.
-  intros o s e x s1 H He. unfold checkout_pre in H.
-  destruct (co_validate o); [now inversion H|].
-  destruct (create_branch o (co_branch_name o) s) as [e1 [h sa]] eqn:Ec.
-  destruct (create_branch_spec _ _ _ _ _ _ Ec) as (_ & _ & _ & _ & _ & _ & A7 & _).
-  destruct e1; [inversion H; subst; apply A7; discriminate|].
-  unfold resolve_commit in H.
-  destruct (if (h =? -1)%Z then lookup (co_branch_name o) (refs sa) else Some h);
-    [|inversion H; subst; discriminate].
-  destruct (tree_of sa z); [|inversion H; subst; discriminate].
-  destruct (match co_mode o with Hard => head_tree sa | _ => HTNone end);
-    try (inversion H; subst; discriminate);
-    (unfold move_head in H;
-     destruct (negb (h =? -1)%Z && negb (co_create o)); [now inversion H|];
-     destruct (lookup (co_branch_name o) (refs sa)); inversion H; subst; discriminate).
-Qed.
-
-Lemma checkout_pre_ok : forall o s c m from s2,
-  checkout_pre o s = (None, ((c, m, from), s2)) ->
-  m = co_mode o /\ (exists t, tree_of s c = Some t) /\ head_commit s2 = Some c /\
-  (m = Hard -> prev_of Hard from s2 = tree_or_empty (head_tree s) \/
-               tree_of s c = Some (prev_of Hard from s2)).
-Proof.
-  intros o s c m from s2 H. unfold checkout_pre in H.
-  destruct (co_validate o); [now inversion H|].
-  destruct (create_branch o (co_branch_name o) s) as [e1 [h sa]] eqn:Ec.
-  destruct (create_branch_spec _ _ _ _ _ _ Ec) as (A1 & A2 & A3 & A4 & A5 & A6 & A7 & A8).
-  destruct e1; [now inversion H|].
-  destruct (resolve_commit (co_branch_name o) h sa) as [[e2|] c1] eqn:Er; [now inversion H|].
-  assert (Hres : (if (h =? -1)%Z then lookup (co_branch_name o) (refs sa) else Some h) = Some c1 /\
-                 exists t, tree_of sa c1 = Some t).
-  { unfold resolve_commit in Er.
-    destruct (if (h =? -1)%Z then lookup (co_branch_name o) (refs sa) else Some h); [|now inversion Er].
-    destruct (tree_of sa z) eqn:Et; inversion Er; subst. split; eauto. }
-  destruct Hres as (Hr1 & t & Ht).
-  assert (Hmove : forall sb, move_head o (co_branch_name o) h c1 sa = (None, sb) -> head_commit sb = Some c1).
-  { intros sb. unfold move_head. destruct (h =? -1)%Z eqn:Ez; cbn [negb andb].
-    - rewrite Hr1. destruct (is_branch (co_branch_name o)); intro X; inversion X; subst; unfold head_commit; cbn; auto.
-    - inversion Hr1; subst c1. destruct (co_create o) eqn:Ecr; cbn [negb].
-      + destruct (A8 eq_refl eq_refl) as (B1 & B2 & _).
-        rewrite B2, lookup_insert_eq.
-        destruct (is_branch (co_branch_name o)); intro X; inversion X; subst; unfold head_commit; cbn; auto.
-        rewrite B2. apply lookup_insert_eq.
-      + intro X; inversion X; subst. reflexivity. }
-  assert (Hht : head_tree sa = head_tree s \/ head_tree sa = HTTree t).
-  { destruct (co_create o) eqn:Ecr.
-    - destruct (A8 eq_refl eq_refl) as (B1 & B2 & B3 & B4).
-      unfold head_tree, head_commit. rewrite A2. destruct (head s) eqn:Eh; [|left; now rewrite (tree_of_commits sa s)].
-      destruct (beqb b (co_branch_name o)) eqn:Eb.
-      + apply beqb_true in Eb. subst b. right.
-        rewrite B2, lookup_insert_eq.
-        destruct (Z.eq_dec (co_hash o) (-1)) as [Ez|Ez].
-        * specialize (B3 Ez). unfold head_commit in B3. rewrite Eh, B1 in B3. discriminate.
-        * specialize (B4 Ez). subst h.
-          assert ((co_hash o =? -1)%Z = false) as Ez' by now apply Z.eqb_neq.
-          rewrite Ez' in Hr1. inversion Hr1; subst c1. now rewrite Ht.
-      + apply beqb_false in Eb. left. rewrite (A5 b Eb).
-        destruct (lookup b (refs s)); [now rewrite (tree_of_commits sa s)|reflexivity].
-    - destruct (A6 eq_refl) as (-> & _). now left. }
-  rewrite (tree_of_commits sa s _ A1) in Ht.
-  destruct (co_mode o) eqn:Em.
-  1,3,4,5: (destruct (move_head o (co_branch_name o) h c1 sa) as [[e3|] sb] eqn:Emv; inversion H; subst;
-            repeat split; eauto; discriminate).
-  destruct (head_tree sa) eqn:Eh; [| now inversion H |];
-    (destruct (move_head o (co_branch_name o) h c1 sa) as [[e3|] sb] eqn:Emv; inversion H; subst;
-     repeat split; eauto; intros _).
-  - (* unborn HEAD: Reset diffs from the new HEAD, i.e. from the target itself *)
-    right. unfold prev_of, prev_tree, head_tree. rewrite (Hmove s2 eq_refl).
-    destruct (move_head_spec _ _ _ _ _ _ _ Emv) as (C1 & _).
-    rewrite (tree_of_commits s2 sa _ C1), (tree_of_commits sa s _ A1), Ht. reflexivity.
-  - unfold prev_of, prev_tree. cbn [tree_or_empty].
-    destruct Hht as [X|X].
-    + left. now rewrite <- X.
-    + right. inversion X; subst. exact Ht.
+  intros o s e x s2 H. unfold checkout_pre in H.
+  destruct (co_validate o) eqn:Ev; [left; inversion H; split; [discriminate|reflexivity]|].
+  destruct (match co_mode o with Merge => unstaged s | _ => false end) eqn:Eu;
+    [left; inversion H; split; [discriminate|reflexivity]|].
+  destruct (match co_mode o with Hard => head_tree s | _ => HTNone end) eqn:Ef;
+    try (left; inversion H; split; [discriminate|reflexivity]);
+  (destruct (create_branch o (co_branch_name o) s) as [e1 [h sa]] eqn:Ec;
+   destruct (create_branch_spec _ _ _ _ _ _ Ec) as (_ & _ & _ & _ & _ & _ & A7 & _);
+   destruct e1; [left; inversion H; subst; split; [discriminate | apply A7; discriminate]|];
+   unfold resolve_commit in H;
+   destruct (if (h =? -1)%Z then lookup (co_branch_name o) (refs sa) else Some h) as [c|] eqn:Er;
+   [destruct (tree_of sa c) as [tt|] eqn:Et |];
+   [ destruct (move_head o (co_branch_name o) h c sa) as [e3 sb] eqn:Em;
+     right; exists h, sa, c, e3;
+     assert (s2 = sb /\ e = e3) as [-> ->] by (destruct e3; inversion H; auto);
+     repeat split; eauto;
+     [ intro X; rewrite X in Eu; exact Eu
+     | intro X; rewrite X in Ef; rewrite Ef; discriminate
+     | intro X; subst e3; inversion H; reflexivity ]
+   | | ]).
+  (* the two resolve_commit errors: possible only without Create (then sa = s) *)
+  all: destruct (co_create o) eqn:Ecr.
+  all: try (destruct (create_branch_spec _ _ _ _ _ _ Ec) as (_ & _ & _ & _ & _ & A6 & _);
+            destruct (A6 Ecr) as (-> & _ & _); left; inversion H; split; [discriminate|reflexivity]).
+  all: exfalso; destruct (create_branch_spec _ _ _ _ _ _ Ec) as (B1 & _ & _ & _ & _ & _ & _ & A8);
+       destruct (A8 eq_refl Ecr) as (_ & B2 & (t9 & Bt) & _ & _).
+  all: try (assert (c = h) by (destruct (h =? -1)%Z; [rewrite B2, lookup_insert_eq in Er|]; congruence); subst c;
+            rewrite (tree_of_commits sa s _ B1) in Et; congruence).
+  all: destruct (h =? -1)%Z; [rewrite B2, lookup_insert_eq in Er|]; discriminate.
 Qed.
 
 (* the commit a Checkout asks for *)
@@ -394,32 +327,120 @@ Definition checkout_target (o : copts) (s : state) : option Z :=
   then (if co_create o then head_commit s else lookup (co_branch_name o) (refs s))
   else Some (co_hash o).
 
-Lemma checkout_pre_target : forall o s c m from s2,
-  checkout_pre o s = (None, ((c, m, from), s2)) -> checkout_target o s = Some c.
+(* a refusal before Reset leaves the state untouched (repaired order) *)
+Lemma checkout_pre_err_unchanged : forall o s e x s2,
+  checkout_pre o s = (Some e, (x, s2)) -> s2 = s.
 Proof.
-  intros o s c m from s2 H. unfold checkout_pre in H.
-  destruct (co_validate o); [now inversion H|].
-  destruct (create_branch o (co_branch_name o) s) as [e1 [h sa]] eqn:Ec.
-  destruct (create_branch_spec _ _ _ _ _ _ Ec) as (A1 & A2 & A3 & A4 & A5 & A6 & A7 & A8).
-  destruct e1; [now inversion H|].
-  destruct (resolve_commit (co_branch_name o) h sa) as [[e2|] c1] eqn:Er; [now inversion H|].
-  assert (Hc : c1 = c).
-  { destruct (match co_mode o with Hard => head_tree sa | _ => HTNone end); try (now inversion H);
-    (destruct (move_head o (co_branch_name o) h c1 sa) as [[e3|] sb]; now inversion H). }
-  subst c1. clear H.
-  unfold resolve_commit in Er.
-  destruct (if (h =? -1)%Z then lookup (co_branch_name o) (refs sa) else Some h) as [c2|] eqn:E2; [|now inversion Er].
-  assert (c2 = c) by (destruct (tree_of sa c2); now inversion Er). subst c2.
-  unfold checkout_target. destruct (co_create o) eqn:Ecr.
-  - destruct (A8 eq_refl eq_refl) as (B1 & B2 & B3 & B4).
-    destruct (co_hash o =? -1)%Z eqn:Ez.
-    + apply Z.eqb_eq in Ez. rewrite (B3 Ez). destruct (h =? -1)%Z.
-      * rewrite B2, lookup_insert_eq in E2. exact E2.
-      * exact E2.
-    + apply Z.eqb_neq in Ez. rewrite <- (B4 Ez).
-      assert ((h =? -1)%Z = false) as X by (apply Z.eqb_neq; rewrite (B4 Ez); exact Ez).
-      now rewrite X in E2.
-  - destruct (A6 eq_refl) as (-> & -> & _). exact E2.
+  intros o s e x s2 H. destruct (checkout_pre_inv _ _ _ _ _ H) as [[_ ?]|(h & sa & c & e3 & _ & _ & _ & Ec & Er & _ & Em & He & _)]; [assumption|].
+  subst e3. destruct (move_head_spec _ _ _ _ _ _ _ Em) as (_ & _ & _ & _ & B5).
+  rewrite (B5 ltac:(discriminate)).
+  destruct (create_branch_spec _ _ _ _ _ _ Ec) as (_ & _ & _ & _ & _ & A6 & _ & A8).
+  destruct (co_create o) eqn:Ecr; [|now destruct (A6 eq_refl)].
+  exfalso. destruct (A8 eq_refl eq_refl) as (_ & B2 & _).
+  unfold move_head in Em. rewrite Ecr in Em. rewrite andb_false_r in Em.
+  rewrite B2, lookup_insert_eq in Em. discriminate.
+Qed.
+
+Lemma checkout_pre_ok : forall o s c m from s2,
+  checkout_pre o s = (None, ((c, m, from), s2)) ->
+  m = co_mode o /\ (exists t, tree_of s c = Some t) /\ head_commit s2 = Some c /\
+  commits s2 = commits s /\ idx s2 = idx s /\ wt s2 = wt s /\
+  (m = Merge -> unstaged s = false) /\
+  (m = Hard -> prev_of Hard from s2 = tree_or_empty (head_tree s) \/
+               tree_of s c = Some (prev_of Hard from s2)) /\
+  checkout_target o s = Some c /\
+  match head s2 with
+  | HDet _ => True
+  | HSym b => is_branch b = true /\ exists x, lookup b (refs s2) = Some x
+  end.
+Proof.
+  intros o s c m from s2 H.
+  destruct (checkout_pre_inv _ _ _ _ _ H) as [[X _]|(h & sa & c1 & e3 & _ & Hu & Hh & Ec & Er & (t & Ht) & Em & He & Hx)];
+    [now contradiction X|].
+  subst e3. specialize (Hx eq_refl). inversion Hx; subst c1 m from. clear Hx.
+  destruct (create_branch_spec _ _ _ _ _ _ Ec) as (A1 & A2 & A3 & A4 & A5 & A6 & _ & A8).
+  destruct (move_head_spec _ _ _ _ _ _ _ Em) as (C1 & C2 & C3 & C4 & _).
+  rewrite (tree_of_commits sa s _ A1) in Ht.
+  (* HEAD after the move *)
+  assert (Hhead : head_commit s2 = Some c /\
+                  match head s2 with HDet _ => True | HSym b => is_branch b = true /\ exists x, lookup b (refs s2) = Some x end).
+  { unfold move_head in Em. destruct (h =? -1)%Z eqn:Ez; cbn [negb andb] in Em.
+    - rewrite Er in Em. destruct (is_branch (co_branch_name o)) eqn:Eb; inversion Em; subst; unfold head_commit; cbn; eauto.
+    - inversion Er; subst c. destruct (co_create o) eqn:Ecr; cbn [negb] in Em.
+      + destruct (A8 eq_refl eq_refl) as (_ & B2 & _).
+        rewrite B2, lookup_insert_eq in Em.
+        destruct (is_branch (co_branch_name o)) eqn:Eb; inversion Em; subst; unfold head_commit; cbn; auto.
+        rewrite B2, lookup_insert_eq. eauto.
+      + inversion Em; subst. unfold head_commit; cbn. auto. }
+  destruct Hhead as [Hc Hshape].
+  repeat split; eauto; try congruence.
+  - (* the from-tree *)
+    intros Hhard. unfold prev_of, prev_tree. rewrite Hhard.
+    destruct (head_tree s) as [| |f] eqn:Eh.
+    + right. unfold head_tree. rewrite Hc, (tree_of_commits s2 s c) by congruence. now rewrite Ht.
+    + now contradiction (Hh Hhard).
+    + left. reflexivity.
+  - (* the target *)
+    unfold checkout_target. destruct (co_create o) eqn:Ecr.
+    + destruct (A8 eq_refl eq_refl) as (_ & B2 & _ & B3 & B4).
+      destruct (co_hash o =? -1)%Z eqn:Ez.
+      * apply Z.eqb_eq in Ez. rewrite (B3 Ez). destruct (h =? -1)%Z; [rewrite B2, lookup_insert_eq in Er|]; exact Er.
+      * apply Z.eqb_neq in Ez. rewrite <- (B4 Ez).
+        assert ((h =? -1)%Z = false) as X by (apply Z.eqb_neq; rewrite (B4 Ez); exact Ez).
+        now rewrite X in Er.
+    + destruct (A6 eq_refl) as (-> & -> & _). exact Er.
+Qed.
+
+(* once the pre-phase has passed, the final Reset cannot refuse *)
+Lemma apply_reset_succeeds : forall c t pv m s s1,
+  set_head_commit c s = (None, s1) -> exists s', apply_reset c t pv m s = (None, s').
+Proof.
+  intros c t pv m s s1 Eh. unfold apply_reset. rewrite Eh.
+  pose proof (reset_index_lookup t (idx s1)) as Hag.
+  destruct m; eauto.
+  - destruct (reset_worktree_to_tree_spec pv t _ (wt (set_idx s1 (fst (reset_index t (idx s1))))) Hag) as (ix' & w' & H1 & _).
+    rewrite H1. cbn. eauto.
+  - destruct (snd (reset_index t (idx s1))) as [|q0 l0]; eauto.
+    destruct (reset_worktree_spec t (q0 :: l0) _ (wt (set_idx s1 (fst (reset_index t (idx s1))))) Hag) as (ix' & w' & H1 & _).
+    rewrite H1. cbn. eauto.
+  - destruct (reset_worktree_to_tree_spec pv t _ (wt (set_idx s1 (fst (reset_index t (idx s1))))) Hag) as (ix' & w' & H1 & _).
+    rewrite H1. cbn. eauto.
+Qed.
+
+Lemma reset_after_pre_succeeds : forall o s c m from s2,
+  checkout_pre o s = (None, ((c, m, from), s2)) -> exists s', reset c m from s2 = (None, s').
+Proof.
+  intros o s c m from s2 H.
+  destruct (checkout_pre_ok _ _ _ _ _ _ H) as (Hm & (t & Ht) & Hc & F1 & F2 & F3 & Hu & _ & _ & Hshape).
+  assert (Hset : exists s1, set_head_commit c s2 = (None, s1)).
+  { unfold set_head_commit. destruct (head s2) as [b0|]; [|eauto].
+    destruct Hshape as (Hb & x0 & Hl). rewrite Hl, Hb. eauto. }
+  destruct Hset as (s1 & Hset).
+  unfold reset.
+  assert (Erc : reset_commit c s2 = (None, c)).
+  { unfold reset_commit. destruct (c =? -1)%Z.
+    - now rewrite Hc.
+    - now rewrite (tree_of_commits s2 s c F1), Ht. }
+  rewrite Erc. rewrite (tree_of_commits s2 s c F1), Ht.
+  unfold co_mode in Hm. destruct (co_force o).
+  - subst m. cbv beta iota. unfold prev_tree.
+    destruct from as [f|].
+    + cbv beta iota. eapply apply_reset_succeeds; eauto.
+    + unfold head_tree. rewrite Hc, (tree_of_commits s2 s c F1), Ht. cbv beta iota.
+      eapply apply_reset_succeeds; eauto.
+  - destruct (co_keep o); subst m; cbv beta iota.
+    + eauto.
+    + rewrite (unstaged_frame s2 s F2 F3), (Hu eq_refl). unfold prev_tree. cbv beta iota.
+      eapply apply_reset_succeeds; eauto.
+Qed.
+
+(* a refused Checkout leaves the whole state as it was *)
+Lemma checkout_err_unchanged : forall o s e s', checkout o s = (Some e, s') -> s' = s.
+Proof.
+  intros o s e s' H. unfold checkout in H.
+  destruct (checkout_pre o s) as [[e1|] [[[c m] from] s2]] eqn:Ep.
+  - inversion H; subst. eapply checkout_pre_err_unchanged; eauto.
+  - destruct (reset_after_pre_succeeds _ _ _ _ _ _ Ep) as (s'' & X). rewrite X in H. discriminate.
 Qed.
 
 (* a successful Checkout that runs a real Reset (Force, or neither Force nor Keep) *)
@@ -433,9 +454,7 @@ Lemma checkout_ok : forall o s s', checkout o s = (None, s') -> co_mode o <> Sof
 Proof.
   intros o s s' H Hm. unfold checkout in H.
   destruct (checkout_pre o s) as [[e|] [[[c m] from] s2]] eqn:Ep; [now inversion H|].
-  destruct (checkout_pre_ok _ _ _ _ _ _ Ep) as (-> & (t & Ht) & Hh & Hpv).
-  pose proof (checkout_pre_target _ _ _ _ _ _ Ep) as Htg.
-  destruct (checkout_pre_frame _ _ _ _ _ Ep) as (F1 & F2 & F3 & _).
+  destruct (checkout_pre_ok _ _ _ _ _ _ Ep) as (-> & (t & Ht) & Hh & F1 & F2 & F3 & Hu & Hpv & Htg & _).
   destruct (reset_ok _ _ _ _ _ H Hm) as (c' & t' & s1 & R1 & R2 & R3 & R4 & R5 & R6 & R7 & R8 & R9 & _).
   assert (c' = c).
   { unfold reset_target in R1. destruct (c =? -1)%Z; congruence. }
@@ -446,5 +465,4 @@ Proof.
   - unfold head_commit in *. now rewrite R5, R6.
   - intro p. rewrite R8, F2, F3. reflexivity.
   - intro X. rewrite X in *. destruct (Hpv eq_refl) as [Y|Y]; [now left|right]. congruence.
-  - intro X. rewrite <- (unstaged_frame s2 s F2 F3). auto.
 Qed.
